@@ -1,7 +1,12 @@
 (** C18 — network canonical form is a complete invariant; automorphism data are exact.
-    Statements only; every proof is [exact <lemma of proof/C18_*.v>]. *)
+    Statements only; every proof is [exact <lemma of proof/C18_*.v>].
+    Vocabulary (proof/C18_Spec.v): [wf g] = node ids distinct, one arc per ordered pair, arcs join nodes (what a
+    networkx DiGraph guarantees; [wfb] is evaluated on every correspondence case); [relabel f g] = g with every node id
+    replaced by [f] (kinds, role, stoich untouched); [geq] = same graph up to the insertion order of nodes / arcs;
+    [iso g h] = some map injective on the nodes of g relabels g into h up to [geq]. *)
 From Coq Require Import List NArith ZArith Bool Arith Permutation.
-From SK Require Import lib.IRSortKeys lib.IRCore lib.IRSearch model.C18_Model proof.C18_Order.
+From SK Require Import lib.IRSortKeys lib.IRCore lib.IRSearch model.C18_Model proof.C18_Order proof.C18_Spec
+  proof.C18_Graph proof.C18_Canon.
 From SK Require lib.IRInst.
 Import ListNotations.
 
@@ -16,3 +21,33 @@ Theorem C18_search_is_fold : forall g : vgraph,
             (None, []).
 Proof. exact canon_search_fold. Qed.
 Print Assumptions C18_search_is_fold.
+
+(** Fuel sufficiency: on a well-formed view the search always reaches a leaf (the code's RuntimeError "canonical
+    form not found" cannot happen without max_depth / timeout). *)
+Theorem C18_canon_found : forall g : vgraph, wf g -> fst (canon_search g) <> None.
+Proof. exact canon_found. Qed.
+Print Assumptions C18_canon_found.
+
+(** Clause 1: the canonical graph is the view relabelled by the canonical numbering [cid perm]
+    (mapping = {v: i+1 for i, v in enumerate(perm)}), which is injective on the nodes of the view and maps them onto
+    k+1 .. k+n (k = length of the duplicated prefix); kinds and arcs with role / stoich are carried over unchanged. *)
+Theorem C18_canon_iso : forall (g : vgraph) (lab perm : list N),
+  wf g -> fst (canon_search g) = Some (lab, perm) ->
+  canon_graph g perm = relabel (cid perm) g /\
+  inj_on (cid perm) (node_ids g) /\
+  (exists k, Permutation (node_ids (canon_graph g perm)) (map N.of_nat (seq (S k) (length (vnodes g))))) /\
+  wf (canon_graph g perm) /\
+  (forall v, In v (node_ids g) -> kind_of (canon_graph g perm) (cid perm v) = kind_of g v) /\
+  (forall u v, In u (node_ids g) -> In v (node_ids g) ->
+     find_arc (canon_graph g perm) (cid perm u) (cid perm v) = find_arc g u v).
+Proof. exact canon_iso. Qed.
+Print Assumptions C18_canon_iso.
+
+(** Clause 3 (completeness): views that receive identical canonical graphs (as graphs: up to insertion order) are
+    isomorphic; contrapositive: non-isomorphic views receive different canonical graphs. *)
+Theorem C18_canon_complete : forall (g1 g2 : vgraph) (l1 p1 l2 p2 : list N),
+  wf g1 -> wf g2 ->
+  fst (canon_search g1) = Some (l1, p1) -> fst (canon_search g2) = Some (l2, p2) ->
+  geq (canon_graph g1 p1) (canon_graph g2 p2) -> iso g1 g2.
+Proof. exact canon_complete. Qed.
+Print Assumptions C18_canon_complete.
